@@ -106,7 +106,7 @@ func (ex *Exec) symIndexLoad(st *State, arr ArrayV, idx *Term) Value {
 			return res
 		}
 	}
-	i := ex.concretize(st, idx, "array index")
+	i := ex.concretizeBelow(st, idx, uint64(len(arr)), "array index")
 	if i >= uint64(len(arr)) {
 		panic(cutPath{"concretised index out of range"})
 	}
@@ -159,7 +159,7 @@ func (ex *Exec) store(st *State, p Ptr, v Value, instr ssa.Instruction) {
 				return
 			}
 		}
-		i := ex.concretize(st, p.Sym, "array index (store)")
+		i := ex.concretizeBelow(st, p.Sym, uint64(len(arr)), "array index (store)")
 		w := st.wobj(p.Obj)
 		w.Val = navSet(w.Val, append(path, int(i)), v)
 		return
@@ -317,11 +317,12 @@ func (ex *Exec) evalValue(st *State, f *Frame, instr ssa.Value) Value {
 }
 
 func (ex *Exec) arrayPtrFromSlice(st *State, s SliceV, n int) Value {
-	off := ex.concretize(st, s.Off, "slice-to-array offset")
 	o := st.obj(s.Obj)
 	if o.kind != ObjCells {
-		panic(cutPath{"slice-to-array-pointer on SMT array"})
+		// pointer to an array view inside an SMT buffer: the element index is carried symbolically
+		return Ptr{Obj: s.Obj, Sym: s.Off}
 	}
+	off := ex.concretize(st, s.Off, "slice-to-array offset")
 	arr := navGet(o.Val, pathElems(s.Path)).(ArrayV)
 	if off == 0 && len(arr) == n {
 		return Ptr{Obj: s.Obj, Path: s.Path}
@@ -355,6 +356,9 @@ func (ex *Exec) indexAddr(st *State, f *Frame, in *ssa.IndexAddr) Value {
 		ex.checkNil(st, a, in)
 		n := in.X.Type().Underlying().(*types.Pointer).Elem().Underlying().(*types.Array).Len()
 		ex.boundsCheck(st, idx, ex.c64(uint64(n)), in)
+		if st.obj(a.Obj).kind == ObjSmt {
+			return Ptr{Obj: a.Obj, Sym: ex.tb.Add(a.Sym, idx)}
+		}
 		if a.Sym != nil {
 			i := ex.concretize(st, a.Sym, "nested array index")
 			a = Ptr{Obj: a.Obj, Path: pathAppend(a.Path, int(i))}
@@ -509,6 +513,9 @@ func (ex *Exec) sliceOp(st *State, f *Frame, in *ssa.Slice) Value {
 		}
 		if !ex.decide(st, tb.AndN(tb.Ule(max, ex.c64(n)), tb.Ule(hi, max), tb.Ule(lo, hi))) {
 			ex.throwRuntime(st, "slice", "slice bounds out of range (array)", in)
+		}
+		if st.obj(a.Obj).kind == ObjSmt {
+			return SliceV{Obj: a.Obj, Off: tb.Add(a.Sym, lo), Len: tb.Sub(hi, lo), Cap: tb.Sub(max, lo)}
 		}
 		if a.Sym != nil {
 			i := ex.concretize(st, a.Sym, "array element index")
